@@ -32,12 +32,14 @@ const (
 	FunctionFailure  Outcome = "FunctionFailure"
 	ConfigError      Outcome = "ConfigError"
 	ProtocolError    Outcome = "ProtocolError"
-	ConnLost         Outcome = "ConnLost" // request was read by the backend, connection dropped without a reply
+	WriteFailureCas  Outcome = "WriteFailure:CAS"    // a failed lightweight transaction (the reference codec of the proxy's library refuses to decode this write type)
+	UnknownErrorCode Outcome = "UnknownError:0x1700" // CAS_WRITE_UNKNOWN, an error code of protocol v5 the library does not know
+	ConnLost         Outcome = "ConnLost"            // request was read by the backend, connection dropped without a reply
 )
 
 // AllOutcomes is the alphabet the fault enumeration draws from.
 var AllOutcomes = []Outcome{Rows, Void, Unavailable, ReadTimeoutRetry, ReadTimeoutData, ReadTimeoutFew, WriteTimeoutLog, WriteTimeoutSimp,
-	Bootstrapping, Overloaded, ServerError, Truncate, ReadFailure, WriteFailure, Invalid, Unauthorized, ConnLost}
+	Bootstrapping, Overloaded, ServerError, Truncate, ReadFailure, WriteFailure, Invalid, Unauthorized, ConnLost, WriteFailureCas, UnknownErrorCode}
 
 // CoreOutcomes is a reduced alphabet with one representative per policy branch (used for deeper exhaustive trees).
 var CoreOutcomes = []Outcome{Rows, Unavailable, ReadTimeoutRetry, ReadTimeoutData, WriteTimeoutLog, WriteTimeoutSimp, Bootstrapping,
@@ -83,8 +85,8 @@ func Decide(o Outcome, idem bool, retries int) Decision {
 			return RetryNext
 		}
 		return Return
-	case ReadFailure, WriteFailure:
-		return Return
+	case ReadFailure, WriteFailure, WriteFailureCas, UnknownErrorCode:
+		return Return // "no retry otherwise": this includes errors the proxy cannot make sense of
 	case ConnLost:
 		if idem {
 			return RetryNext
